@@ -109,7 +109,7 @@ theorem run_node_readers (d : Bool) (m c : Nat) (dbg : Bool) (n : Nat) (ops : Li
     rw [this]
     exact run_cap m ops _ (by simpa [SG.n] using hn)
   obtain ⟨h1, h2⟩ := node_readers good abs hcap
-  exact ⟨h1, h2, (readers good abs 0).2.2.2.2, fun a ha => ((readers good abs a).1 ha).1⟩
+  exact ⟨h1, h2, (readers good abs 0).2.2.2, fun a ha => ((readers good abs a).1 ha).1⟩
 
 /-- the node index an answer carries, if it is one (`Out` has no decidable equality) -/
 def outIx : Out → Option Nat
